@@ -262,7 +262,7 @@ package gohlslib
 // C01 / C05 / C17: the next part of a segment's file is allocated only after the previous part has been written out
 // (a disk file derives the new part's offset from what the previous part holds at that moment)
 //@ func muxerStream.rotateParts
-//@   props C03 C04 C05 C06 C08 C18
+//@   props C01 C03 C04 C05 C06 C08 C17 C18
 //@   role writer
 //@   requires held(s.mutex) && streamLinks(s) && s.server.pathHandlers != nil && unheld(&s.server.mutex) && handlersOK(s.server)
 //@   requires partOK(s.nextPart) && s.nextPart.segment != nil && storage.fileOpen(s.nextPart.segment.storage)
